@@ -160,7 +160,7 @@ Definition do_pause (s : state) : state :=
 
 (* Connection.resume_writing: self.write_ready.set(); if not self.is_closing(): self.flush()
    The flush writes what h2 has queued.  ASSUMPTION of this model (tied to the source by
-   C07_source_sends_flushed_at_once and checked by the correspondence, which reports any DATA frame
+   C07_source_send_data_facts (b) and checked by the correspondence, which reports any DATA frame
    the peer receives outside a sender's run): no DATA frame of a sender is queued in h2 at that
    moment, because every iteration of send_data hands its frame to the transport (data_to_send +
    write) before its next suspension point.  What may be queued are frames of other code paths
